@@ -1406,6 +1406,9 @@ class Emitter:
     def derived_to_base(self, e, inner):
         q = (e['type'].get('desugaredQualType') or e['type']['qualType']).strip()
         is_ptr = q.endswith('*')
+        iq = (inner['type'].get('desugaredQualType') or inner['type']['qualType']).strip()
+        if re.match(r'^(const |volatile )*std::(atomic|__atomic_base|__atomic_float)<', iq):
+            return self.sub(inner)      # std::atomic<T> is a plain T: its base sub-objects are the same scalar
         drec, _ = self.pointee_rec(inner['type'])
         path = None
         if e.get('path'):
